@@ -446,6 +446,8 @@ def rule_R9(ck):
 
 def run(ck):
     ck.run_rule("C07.R1", "error latch: error/critical set the flag, critical aborts, warning does neither", 3, rule_R1)
+    from ..rules import deliver
+    ck.run_rule("R.deliver", "an emitted error reaches the handler at once and latches, also inside speculative evaluation", 6, deliver.rule_deliver)
     ck.run_rule("C07.R2", "conversion at scope exit over the complete valuation; latch writer/reader agreement", 16, rule_R2)
     ck.run_rule("C07.R3", "who may write files, and when", 4, rule_R3)
     ck.run_rule("C07.R4", "every failure handler of main_cli ends in a failing exit", 6, rule_R4)
@@ -454,5 +456,6 @@ def run(ck):
     ck.run_rule("C07.R8", "diagnostics and the image never share a stream", 10, rule_R8)
     ck.run_rule("C07.R9", "graphical renderer: the context window contains every reported line", 1, rule_R9)
     ck.run_rule("C02.R7w", "errors in unused definitions are diagnosed inside the report scope (closing evaluation of every symbol)", 1, c02.rule_closing_wait)
+    ck.run_rule("C02.R2", "every statement's chunk joins the image, so deferred output directives (make_*) are evaluated and a successful run writes its outputs", 5, c02.rule_R2)
     from ..rules import climodel
     ck.run_rule("CLI", "main_cli over all output configurations: fails iff an error was reported, nothing written on failure, report options do not interfere", 500, climodel.rule_cli, ("exit", "noninterference"))
